@@ -13,7 +13,7 @@ Literal model of the C++ `FusionEngineFramer`
                   shifting, re-entry into `onByte`, the three continuations.  A duplicated SYNC0 met inside the loop
                   rejects the first one (the search restarts behind it).
 * `onData`      : fold over the bytes of one call, accumulating the return value and the callbacks.
-* `setBuffer`, `construct`, `reset`.
+* `setBuffer`, `construct`, `reset`; `Op` / `runOps`: histories of `OnData`, `Reset()` and `SetBuffer()` calls.
 
 Core Lean only.  `uint32_t` values are `Nat`s kept below 2^32 (`% U32` where the source can wrap).
 -/
@@ -261,19 +261,50 @@ def onDataCalls : Framer → List Bytes → Framer × List Nat × List Bytes
 inductive Op
   | data (d : Bytes)     -- OnData(d)
   | reset                -- Reset()
+  | setBuffer (user : Option Nat) (alloc capacity : Nat)
+                         -- SetBuffer(buffer, capacity): `user = some a` caller storage at address `a`,
+                         -- `user = none` is `nullptr` and `alloc` the address `new uint8_t[capacity]` returns
   deriving Repr
+
+/-- The one assumption about the environment: `operator new[]` returns 4-byte aligned storage. -/
+def Op.ok : Op → Prop
+  | .setBuffer none alloc _ => alloc % 4 = 0
+  | _ => True
+
+/-- Operations other than `SetBuffer`. -/
+def Op.keepsBuffer : Op → Prop
+  | .setBuffer _ _ _ => False
+  | _ => True
+
+/-- The bytes of a caller's buffer in front of the first 4-byte aligned address (none for an internal buffer). -/
+def slackOf (user : Option Nat) : Nat :=
+  match user with
+  | some a => alignUp a - a
+  | none => 0
 
 def applyOp (f : Framer) : Op → Framer
   | .data d => (onData f d).f
   | .reset => f.reset
+  | .setBuffer user alloc capacity => f.setBuffer user alloc capacity
 
 def runOps (f : Framer) (ops : List Op) : Framer := ops.foldl applyOp f
 
+/-- The callbacks made by a history of operations, in order. -/
+def opsCbs (f : Framer) : List Op → List Bytes
+  | [] => []
+  | .data d :: ops => (onData f d).cbs ++ opsCbs (onData f d).f ops
+  | .reset :: ops => opsCbs f.reset ops
+  | .setBuffer user alloc capacity :: ops => opsCbs (f.setBuffer user alloc capacity) ops
+
+/-- `capacity_bytes_` of an object that has a buffer. -/
+def capOf (f : Framer) : Option Nat := if f.hasBuf then some f.cap else none
+
 /-- States reachable by a user of the class: construct (with a caller buffer at any address, or an
-internal one), then any sequence of `OnData` calls and `Reset`s. -/
+internal one), then any sequence of `OnData` calls, `Reset`s and `SetBuffer`s (a caller buffer at any
+address and of any size, or an internal one of any size, at any point of the stream). -/
 def Reachable (f : Framer) : Prop :=
   ∃ (user : Option Nat) (alloc capacity : Nat) (ops : List Op),
-    (user = none → alloc % 4 = 0) ∧ f = runOps (Framer.construct user alloc capacity) ops
+    (user = none → alloc % 4 = 0) ∧ (∀ op ∈ ops, op.ok) ∧ f = runOps (Framer.construct user alloc capacity) ops
 
 /-- A framer in the reset state (freshly constructed, or after `Reset()`). -/
 def Fresh (f : Framer) : Prop :=
